@@ -67,7 +67,7 @@ class C10(PropBase):
                     yield dict(directed=directed, removal=True, hist=h, family='int', functional=False, fmt=FMTS[i % len(FMTS)], log=[])
 
     def n_random(self, tier):
-        return 500 if tier == 'quick' else 8000
+        return 500 if tier == 'quick' else 30000
 
     def random_cases(self, rnd, n):
         for _ in range(n):
